@@ -1,7 +1,44 @@
 """This module contains weight item."""
 
+from __future__ import annotations
+
+from typing import TYPE_CHECKING
+
 from glotaran.model.item import Item
+from glotaran.model.item import ItemIssue
+from glotaran.model.item import ModelItemIssue
+from glotaran.model.item import attribute
 from glotaran.model.item import item
+
+if TYPE_CHECKING:
+    from glotaran.model.model import Model
+    from glotaran.parameter import Parameters
+
+
+def validate_weight_datasets(
+    value: list[str],
+    weight: Weight,
+    model: Model,
+    parameters: Parameters | None,
+) -> list[ItemIssue]:
+    """Get an issue for every dataset label of a weight which is not defined in the model.
+
+    Parameters
+    ----------
+    value: list[str]
+        The labels of the datasets the weight is applied to.
+    weight: Weight
+        The weight.
+    model: Model
+        The model.
+    parameters: Parameters | None,
+        The parameters.
+
+    Returns
+    -------
+    list[ItemIssue]
+    """
+    return [ModelItemIssue("dataset", label) for label in value if label not in model.dataset]
 
 
 @item
@@ -12,7 +49,7 @@ class Weight(Item):
     will be used if not set.
     """
 
-    datasets: list[str]
+    datasets: list[str] = attribute(validator=validate_weight_datasets)  # type:ignore[arg-type]
     global_interval: tuple[float, float] | None = None
     model_interval: tuple[float, float] | None = None
     value: float
